@@ -4,11 +4,11 @@ from . import lib, walkcommon as W
 META = {
     'level': 'proof',
     'technique': 'Lean 4 theorems over all fault plans (no panic; non-fatal; containment; status characterisation) + fault-injecting correspondence with scalibr.Scan',
-    'design_ref': 'DESIGN.md §5 C09',
+    'design_ref': 'DESIGN.md §4 (section of C09), §5 (defects), §7 (seeded changes)',
     'text': 'Kernel-checked for ALL trees and ALL fault plans (any number of simultaneous faults over stat/open-dir/k-th read/open-file/stat-on-open/lazy size stat/.gitignore open): '
             'the ONE engine-side panic site of the model (the deferred gitignore-stack pop) is unreachable, so a scan ends with the panic outcome only if an extractor panics (other Go panic sources have no outcome in the model: stream only); with errors not fatal no fault set fails the scan; the attempts made are those of the fault-free scan minus the '
             'files under/after the failing site — for ANY plan, mixed unreadable .gitignore + other faults and requested paths included (C09_contained_any, C09_contained_run_any_benign; the driver prints that right-hand side as contained= and the implementation is judged against it); statuses are failed/partial exactly when an attempt failed, as a function of each attempts of that root in EVERY configuration without a panicking extractor (C09_statuses_of_calls). Fault plans are ENUMERATED for small trees (all single faults; all pairs in the thorough tier) besides the sampled stream. There is no file-content read fault: the engine never reads contents, it hands the reader to Extract. Tied to the Go engine through a fault-injecting fs.FS.',
-    'note': 'Trusted as in C01. Fault kinds: one non-permission error class (permission errors differ only in log level). '
+    'note': 'Trusted as in C01. Fault kinds: every fault site answers with one of three error kinds (other / syscall.EACCES / syscall.ENOENT); the engine must treat them alike apart from log levels, the model has one failure outcome per site. '
             'C09_fatal_fatalcfg: scan error = fs exactly when traversalFaultScan, for all forests and fault plans.',
 }
 THEOREMS = ['Scalibr.Walk.C09_no_panic', 'Scalibr.Walk.C09_nonfatal_benign', 'Scalibr.Walk.C09_contained_partial', 'Scalibr.Walk.C09_surfaced_benign',
